@@ -133,6 +133,55 @@ pub fn run(ctx: &mut Ctx) {
             }
         });
     }
+    // size probes: long operand lists, the deciding operand at every position
+    for n in al::size_classes(ctx.tier_thorough) {
+        if n > 300 {
+            continue;
+        }
+        if !ctx.mine() {
+            continue;
+        }
+        let step = if n > 40 { n / 13 + 1 } else { 1 };
+        let mut k = 0;
+        while k <= n {
+            ctx.edge();
+            // and: truthy tracers before position k, a falsy tracer at k, poison after
+            let mk = |truthy_prefix: bool| -> Vec<Value> {
+                (0..n)
+                    .map(|i| {
+                        if i < k {
+                            if truthy_prefix { json!({"log": format!("M{}", i)}) } else { json!({"log": [falsy(i)]}) }
+                        } else if i == k {
+                            if truthy_prefix { json!({"log": [falsy(i)]}) } else { json!({"log": format!("M{}", i)}) }
+                        } else if i % 2 == 0 {
+                            json!({"+": ["x"]})
+                        } else {
+                            json!({"==": []})
+                        }
+                    })
+                    .collect()
+            };
+            ctx.check("and:size-probe", &op("and", mk(true)), &da);
+            ctx.check("or:size-probe", &op("or", mk(false)), &da);
+            // if: falsy conditions up to pair k, then a truthy one; values are position-marked
+            let mut args: Vec<Value> = Vec::new();
+            for i in 0..n {
+                if i % 2 == 0 {
+                    if i / 2 < k / 2 { args.push(json!({"log": [falsy(i)]})) } else if i / 2 == k / 2 { args.push(json!({"log": format!("C{}", i)})) } else { args.push(json!({"+": ["x"]})) }
+                } else if i / 2 == k / 2 {
+                    args.push(json!({"log": format!("V{}", i)}))
+                } else {
+                    args.push(json!({"==": []}))
+                }
+            }
+            let o1 = ctx.check("if:size-probe", &op("if", args.clone()), &da);
+            let o2 = ctx.check("?::size-probe", &op("?:", args.clone()), &da);
+            if o1.out != o2.out || o1.log != o2.log {
+                ctx.law_fail("law:if==?:", &op("?:", args), &da, o1.show(), o2.show());
+            }
+            k += step;
+        }
+    }
     // bracket-less single operand and non-array operands
     if ctx.mine() {
         for r in [json!({"if": "x"}), json!({"if": 0}), json!({"and": "x"}), json!({"or": 0}), json!({"?:": {"log": "u"}}), json!({"and": {"var": "t1"}}), json!({"if": [[]]}), json!({"or": [[], [0]]}), json!({"and": [[0], []]})] {
